@@ -430,3 +430,54 @@ def tested_is_returned(ctx, res):
                            f"one the test never saw (an int, a str subclass, "
                            f"... is kept unconverted)")
     res.floor(2)
+
+
+# ---------------------------------------------------------------------------
+# C03.type-kind-scope
+
+@rule("C03.type-kind-scope", ["C03"],
+      "the exact-type fast validator (C PyObject_TypeCheck, which ignores "
+      "`value.__class__`) is selected only for classes in the TypeTypes "
+      "table; everything else uses the isinstance kind, which is what the "
+      "Python validate methods test")
+def type_kind_scope(ctx, res):
+    repo = get_pyrepo(ctx)
+    n = 0
+    for rel in ("traits/trait_types.py", "traits/trait_handlers.py"):
+        mod = repo.module(rel)
+        par = {}
+        for p_ in ast.walk(mod.tree):
+            for c_ in ast.iter_child_nodes(p_):
+                par[id(c_)] = p_
+        for x in ast.walk(mod.tree):
+            if not (isinstance(x, ast.Attribute)
+                    and norm(x) == "ValidateTrait.type"
+                    and isinstance(x.ctx, ast.Load)):
+                continue
+            # the statement that uses the kind and its guards up to the def
+            node, guards, fn = x, [], None
+            while id(node) in par:
+                up = par[id(node)]
+                if isinstance(up, ast.If) and node is not up.test:
+                    guards.append((up.test, node in up.body))
+                if isinstance(up, ast.FunctionDef):
+                    fn = up
+                    break
+                node = up
+            if fn is None:
+                continue
+            n += 1
+            key = f"{rel.split('/')[-1]}:{fn.name}:type-kind"
+            res.instance(key, mod.loc(x),
+                         guards=[norm(g) for g, _ in guards])
+            tt = [g for g, pos in guards if pos and isinstance(g, ast.Compare)
+                  and len(g.ops) == 1 and isinstance(g.ops[0], ast.In)
+                  and norm(g.comparators[0]) == "TypeTypes"]
+            res.oblige(bool(tt), key, mod.loc(x),
+                       f"`ValidateTrait.type` is selected under "
+                       f"{[norm(g)[:60] for g, _ in guards]}: it must be "
+                       f"inside the true branch of a plain `<class> in "
+                       f"TypeTypes` test - for any other class the C type "
+                       f"check rejects proxies/mocks that Python's "
+                       f"isinstance (the validate method) accepts")
+    res.floor(2)
